@@ -429,6 +429,18 @@ def QS.run {n : Nat} (st : Store) : QS n → List (Row n) × QS n
     let rq := q.run st
     (rq.1.map (project vs), .proj vs rq.2)
 
+/-- a prepared `Query` object: its prologue's base (what `IRI()` / `URI()` and relative references resolve
+    against during evaluation) and the algebra tree -/
+structure PQ (n : Nat) where
+  base : List Nat
+  tree : QS n
+
+/-- `SPARQLProcessor.query(prepared, base=b)`: the `base` keyword is handed on to `evalQuery`, it is not written
+    to the shared object (whose `prologue.base` was fixed when the query was prepared) -/
+def PQ.run {n : Nat} (st : Store) (_baseArg : Option (List Nat)) (p : PQ n) : List (Row n) × PQ n :=
+  let r := p.tree.run st
+  (r.1, { base := p.base, tree := r.2 })
+
 /-- evaluating the same prepared object on a sequence of stores -/
 def runMany {n : Nat} : QS n → List Store → List (List (Row n)) × QS n
   | q, [] => ([], q)
